@@ -382,7 +382,63 @@ func (it *Interp) textModel(st *state, name string, c *ssa.CallCommon, args []Va
 			return TupleV{res, NilV{}}, true
 		}
 		return TupleV{res, ErrV{okN}}, true
-	case "strings.Join", "fmt.Sprintf", "strconv.FormatUint", "strconv.Itoa", "strconv.FormatInt":
+	case "strings.LastIndex":
+		s, ok1 := args[0].(StrV)
+		sub, ok2 := args[1].(StrV)
+		if !ok1 || !ok2 || !sub.Known || len(sub.S) != 1 {
+			return nil, false
+		}
+		chars, ok := toCharsOf(it, s)
+		if !ok {
+			return nil, false
+		}
+		last := -1
+		for i := len(chars) - 1; i >= 0; i-- {
+			ch := chars[i]
+			if v, isC := ch.IsConst(); isC && ch.Hex == nil {
+				if byte(v) == sub.S[0] {
+					last = i
+					break
+				}
+				continue
+			}
+			hi, okH := (BV{W: 4, B: ch.B[4:8]}).IsConst()
+			if ch.Hex == nil && !(okH && byte(hi<<4) != sub.S[0]&0xf0) {
+				return nil, false // this character may or may not be the one looked for
+			}
+		}
+		return it.constBV(uint64(int64(last)), 64).signed(), true
+	case "fmt.Sprintf":
+		// "%02d:%02d" of two small non-negative integers: two decimal digits each (the model
+		// records the obligation that each argument is below 100)
+		f, ok := args[0].(StrV)
+		if !ok || !f.Known || f.S != "%02d:%02d" {
+			return OpaqueV{"formatted text"}, true
+		}
+		va, ok := args[1].(SliceV)
+		if !ok || va.Len != 2 {
+			return OpaqueV{"formatted text"}, true
+		}
+		out := StrV{Sym: true}
+		for i := 0; i < 2; i++ {
+			v, ok := it.load(st, it.sliceElemPtr(va, i), types.Typ[types.Int]).(BV)
+			if !ok || v.HasTop() {
+				return OpaqueV{"formatted text"}, true
+			}
+			v.Signed = false
+			it.Obligations = append(it.Obligations, it.ult(v, it.constBV(100, v.W)))
+			q, r := it.udivConst(v, 10)
+			for _, d := range []BV{q, r} {
+				ch := it.constBV(0x30, 8)
+				copy(ch.B[0:4], d.B[0:4])
+				out.Chars = append(out.Chars, ch)
+			}
+			if i == 0 {
+				out.Chars = append(out.Chars, it.constBV(':', 8))
+			}
+		}
+		return out, true
+	case "strings.Join", "strconv.FormatUint", "strconv.Itoa", "strconv.FormatInt":
 		return OpaqueV{"formatted text"}, true
 	case "strings.Index":
 		return it.topBV(64).signed(), true
